@@ -204,15 +204,23 @@ fn check_case(report: &mut Report, case: &Case, verbose: bool) {
             let y = &p0.transformed_position;
             let hh = 1e-6 * (1.0 + norm(y));
             for k in 0..d.min(3) {
-                let mut yp = y.clone();
-                yp[k] += hh;
-                let mut ym = y.clone();
-                ym[k] -= hh;
-                let xp: Vec<f64> = mat_vec(&f, &yp).iter().zip(&c).map(|(a, b)| a + b).collect();
-                let xm: Vec<f64> = mat_vec(&f, &ym).iter().zip(&c).map(|(a, b)| a + b).collect();
-                let fd = (logp_grad(&setup.target, &xp).0 - logp_grad(&setup.target, &xm).0) / (2.0 * hh);
+                let central = |step: f64| -> (f64, f64) {
+                    let mut yp = y.clone();
+                    yp[k] += step;
+                    let mut ym = y.clone();
+                    ym[k] -= step;
+                    let xp: Vec<f64> = mat_vec(&f, &yp).iter().zip(&c).map(|(a, b)| a + b).collect();
+                    let xm: Vec<f64> = mat_vec(&f, &ym).iter().zip(&c).map(|(a, b)| a + b).collect();
+                    let (lp, lm) = (logp_grad(&setup.target, &xp).0, logp_grad(&setup.target, &xm).0);
+                    ((lp - lm) / (2.0 * step), 16.0 * f64::EPSILON * (lp.abs() + lm.abs()) / (2.0 * step))
+                };
+                // Richardson extrapolation of two central differences; the difference between the two is the measured
+                // truncation error, the rounding error of the log densities is added
+                let ((f1, r1), (f2, r2)) = (central(hh), central(hh / 2.0));
+                let fd = (4.0 * f2 - f1) / 3.0;
                 let scale = norm(&p0.transformed_gradient).max(1.0);
-                if !((fd - p0.transformed_gradient[k]).abs() <= 1e-4 * scale) {
+                let tol = 1e-4 * scale + 2.0 * (f2 - f1).abs() + 2.0 * (r1 + r2);
+                if !((fd - p0.transformed_gradient[k]).abs() <= tol) {
                     report.violation(sig("gradient_vs_finite_difference"), format!("coord {k}: fd {fd} vs {}", p0.transformed_gradient[k]), replay.clone());
                 }
             }
@@ -682,12 +690,12 @@ pub fn run(args: &Args, report: &mut Report) {
         }
         return;
     }
-    let n = report.size(16_000, 400_000);
-    let n_order = report.size(1600, 40_000);
-    let n_exact = report.size(3200, 80_000);
-    let n_vol = report.size(2400, 60_000);
+    let n = report.size(16_000, 6_000_000);
+    let n_order = report.size(1600, 400_000);
+    let n_exact = report.size(3200, 1_000_000);
+    let n_vol = report.size(2400, 600_000);
     let seed = args.seed ^ 0xC02;
-    let n_adapted = report.size(720, 12_000);
+    let n_adapted = report.size(720, 60_000);
     crate::report::par_run(report, n_adapted, |i, rep| adapted_case(rep, seed, i));
     crate::report::par_run(report, n + n_order + n_exact + n_vol, |i, rep| {
         if i < n {
